@@ -228,4 +228,4 @@ def run(tier):
 
 
 def replay(path):
-    return 0
+    return core.generic_replay(path)
